@@ -88,7 +88,9 @@ def construction_parity_rule(repo: Repo, rep: Report, rid: str) -> None:
     reads = [c for c in walk_body(rd.node.body) if isinstance(c, ast.Call) and call_name(c) == "_read" and norm(c.func.value) == "field.type"]
     for c in reads:
         n += 1
-        rep.check(len(c.args) == 2 and norm(c.args[1]) == "result", rid, f"{rd.key}:{short(c, 60)}", "context is the in-progress result",
+        from ..util import in_progress_result_names
+
+        rep.check(len(c.args) == 2 and norm(c.args[1]) in in_progress_result_names(rd.node), rid, f"{rd.key}:field.type._read(stream, <result>)", "context is the in-progress result",
                   "the interpreter does not pass the in-progress result dict as context", rd.loc(c))
     rep.floor(rid, "pointer construction sites", n, 4)
 
@@ -330,3 +332,6 @@ def run(repo: Repo, rep: Report, tier: str) -> None:
 
     memo_rule(repo, rep, "C16.R8")
     pointer_default_rule(repo, rep, "C16.R9")
+    from .c18 import offsets_before_compile_rule
+
+    offsets_before_compile_rule(repo, rep, "C16.R10")
